@@ -474,8 +474,14 @@ class ComponentLevel3( ComponentLevel2 ):
                   break
                 obj = obj.get_parent_object()
 
-              # Check sibling slices
+              # Check sibling slices. If v is already driven through a
+              # written ancestor, an overlapping written sibling is the
+              # same driver seen twice (one block may write s.x and
+              # s.x[0]; different blocks doing so are rejected by
+              # _check_upblk_writes), not a second writer of this net.
+              driven_by_ancestor = has_writer and writer is v
               for obj in v.get_sibling_slices():
+                if driven_by_ancestor: break
                 if obj.slice_overlap( v ):
                   if obj in writer_prop and writer_prop[ obj ]:
                     assert not has_writer
